@@ -66,7 +66,33 @@ def run_gp(case):
     return {"n": n, "edges": [list(e) for e in case["edges"]], "events": events, "input": case}
 
 
+def gen_hub(rng):
+    """a hub listed first with three or four branches hanging off it; inside a branch the node next to the hub has one or two
+    children, some of which link back to the hub (so that node is, or is not, a cut vertex depending on the back links)"""
+    edges, n = [], 1
+    for _ in range(rng.randint(3, 4)):
+        c = n
+        n += 1
+        edges += [[0, c], [c, 0]]
+        for _ in range(rng.randint(0, 2)):
+            k = n
+            n += 1
+            edges += [[c, k], [k, c]]
+            if rng.random() < 0.4:
+                edges += [[k, 0], [0, k]] if rng.random() < 0.5 else [[k, 0]]
+    rest = list(range(1, n))
+    rng.shuffle(rest)
+    # the hub's own neighbour list in a random order (which branch the DFS enters third matters)
+    hub = [e for e in edges if e[0] == 0]
+    rng.shuffle(hub)
+    edges = hub + [e for e in edges if e[0] != 0]
+    return {"n": n, "edges": edges, "order": [0] + rest, "symmetric": True, "labels": rng.choice(["int", "str", "tuple", "big"]),
+            "ks": [0, 1, 2], "pr": [[17, 20, 1]], "res": [[1, 1]]}
+
+
 def gen(rng, nmax=9):
+    if nmax >= 9 and rng.random() < 0.15:
+        return gen_hub(rng)
     n = rng.randint(1, nmax)
     sym = rng.random() < 0.7
     dens = rng.choice([0.15, 0.25, 0.4, 0.6])
